@@ -154,6 +154,9 @@ def run(ck, rng):
                     pre.append((tjoin(b"tgt", p), "d"))
             if rng.random() < 0.3:
                 pre.append((tjoin(b"tgt", items[0][1] + b"/zz_extra"), "d"))
+        if entry == "mkdir" and rng.random() < 0.5:
+            # an unusual umask, and permission bits in the snapshots: both modes must leave the same MODES too
+            pre.append((rng.choice([b"002", b"000", b"027"]), "u"))
         scen.append((entry, doc, items, exts, pre, strict, tag, kind))
     # large documents (well beyond the scanner's 4 KiB buffer) and over-long lines
     for _ in range(12 if ck.tier == "quick" else 200):
@@ -262,7 +265,9 @@ def run(ck, rng):
         mr, sr = m[0], s[0]
         mout = m[5] if len(m) > 5 else "-"
         bad = None
-        if (mr == "ok") != (sr == "ok"):
+        if len(m) > 7 and m[7] != "0":
+            bad = "after the call returned, %s node(s) handed to the callback say something else than during the walk (or the writer / callback / reader was used late)" % m[7]
+        elif (mr == "ok") != (sr == "ok"):
             bad = "massive returns %s, simple returns %s" % (mr, sr)
         elif entry == "mkdir" and mr == sr == "err:exist_path" and parse_snap(mout) != parse_snap(s[2]):
             bad = "path-exists error, but mkdir leaves a different file system than simple mode (which creates nothing)"
